@@ -268,7 +268,7 @@ class NpyWriterFile(object):
         self.header = d
 
     def write(self, tok):
-        if not isinstance(tok, snp.BytesToken):
+        if not isinstance(tok, snp.BytesToken) and self.header is not None:
             raise Inconclusive('raw bytes written to an npy writer file')
         self.chunks.append(tok)
 
@@ -283,7 +283,7 @@ class NpyWriterFile(object):
             return
         self.closed = True
         if self.header is None:
-            _FS.entries[self.path] = Entry('other')
+            _FS.entries[self.path] = Entry('bin', content=list(self.chunks))
             return
         shape = tuple(self.header['shape'])
         hdt = _np.dtype(self.header['descr'])
@@ -403,6 +403,34 @@ class NpyRawFile(object):
         return False
 
 
+class Blob(list):
+    """File content as a list of chunk tokens; falsy when it holds no byte."""
+    def __bool__(self):
+        return _b.any(_b.bool(t) for t in self)
+
+
+class BinReadFile(object):
+    """Reader over a 'bin' entry: the first read returns the whole content, then EOF."""
+    def __init__(self, e):
+        self.items = Blob(e.content)
+        self.pos = 0
+
+    def read(self, n=-1):
+        if self.pos == 0:
+            self.pos = 1
+            return self.items
+        return b''
+
+    def close(self):
+        pass
+
+    def __enter__(self):
+        return self
+
+    def __exit__(self, *a):
+        return False
+
+
 class TextWriteFile(object):
     def __init__(self, path, mode):
         self.path = str(path)
@@ -494,6 +522,8 @@ def vopen(path, mode='r', **kw):
             f = NpyRawFile.__new__(NpyRawFile)
             f.path, f.e, f.pos = p, e, 0
             return f
+        if e.kind == 'bin':
+            return BinReadFile(e)
         raise Inconclusive('binary read of %s' % p)
     raise Inconclusive('open mode %r' % mode)
 
